@@ -140,6 +140,26 @@ def run(ctx):
         if L.shape != (d0, d0) or L.dtype.kind != 'f' or not np.isfinite(L).all():
           ctx.fail_input('components_real', '%s with a float32 SPD array: components_ is not a finite float array of shape (d, d)' % name,
                          dict(estimator=name, array=arr.tolist(), max_iter=mi), observed=str((L.shape, str(L.dtype))))
+  # ---- data-dependent priors of the tuple learners on features in a small unit (2^-20 ~ 1e-6: covariances of the order 1e-12,
+  # their inverses 1e12): the prior is the (pseudo-)inverse covariance whatever the unit, and fit returns a finite model
+  for name in ('ITML', 'ITML_Supervised', 'LSML', 'LSML_Supervised', 'MMC'):
+    data = fits.make_data(ctx.rng, d=int(ctx.rng.integers(2, 5)))
+    data_s = dict(data, X=data['X'] * 2.0 ** -20)
+    kw = dict(fits.base_kwargs(name, data_s), max_iter=5)
+    kw['init' if name == 'MMC' else 'prior'] = 'covariance'
+    ctx.count('units', 1)
+    try:
+      with warnings.catch_warnings():
+        warnings.simplefilter('ignore')
+        est = fits.fit(name, kw, data_s)
+      Ls = np.asarray(est.components_)
+      if Ls.shape != (data['d'], data['d']) or Ls.dtype.kind != 'f' or not np.isfinite(Ls).all():
+        ctx.fail_input('components_real', '%s with a covariance prior on data in units of 2^-20: components_ is not a finite real (d, d) array' % name,
+                       dict(estimator=name, X=data_s['X'].tolist()), observed=str((Ls.shape, str(Ls.dtype))))
+    except Exception as ex:
+      ctx.fail_input('fit_runs', "%s with the 'covariance' prior raises %s on data in units of 2^-20" % (name, type(ex).__name__),
+                     dict(estimator=name, params={k: str(v)[:30] for k, v in kw.items()}, units=2.0 ** -20, X=data_s['X'].tolist(), y=data['y'].tolist()),
+                     observed=str(ex)[:200])
   # ---- the unit the features are measured in: the same well-formed data in units of 2^6, 2^10 and 2^-10 still give a
   # finite model of the right shape (transformation learners and closed forms; the tuple solvers' units are C11-C15's)
   for name, kw, data in fits.zoo_specs(ctx.rng, variants=False, names=['NCA', 'MLKR', 'LMNN', 'LFDA', 'Covariance', 'RCA', 'RCA_Supervised']):
